@@ -12,15 +12,28 @@ prop("C03", "fault_enumeration",
      "deliver a bit-flipped copy before the original (flip in type / reserved / session id / counter / body / tag region), flip in "
      "flight, deliver a copy truncated to any length or extended, reflect a copy to its sender, inject a copy into the other "
      "session (with and without rewriting the session id), and send forged control / unknown-type / transport datagrams carrying "
-     "the live session id from the peer's or a third address; one case in four runs on a faithful network. Oracle: (1) every message "
+     "the live session id from the peer's or a third address; one case in four runs on a faithful network. Message sizes also sit at and "
+     "next to block boundaries of the AEAD (k*B-1, k*B, k*B+1 for every multiple up to ~4200 bytes and the last multiples below Max; B mostly the "
+     "200-byte permutation width of Kravatte - the message as written is exactly the AEAD plaintext, the 16 header bytes are associated data - "
+     "sometimes 8/16/32/64/136/168; also as the LAST packet of a multi-packet Write), and a flip draws its position from a coarse region or a "
+     "fine one (last / first / j-th 200-byte block of the body counted from either end, last byte, first byte, anywhere in the datagram); one "
+     "case in eight is a 'boundary' case (such sizes only, flips addressed to exactly those datagrams). One case in eight is an 'interrupted' "
+     "case: faithful network, one writer per end issuing mostly multi-packet Writes (2-5 packets), and the SENDING side of one or both "
+     "endpoints is disturbed: the socket refuses the k-th transport datagram the endpoint sends (ENOBUFS, once or from then on), or the "
+     "endpoint's own connection is closed (Client.Close / Handle.Close / Server.Close) while its k-th datagram is inside the socket "
+     "(the datagram waits for Close to return, for a bounded time, or not at all). Oracle: (1) every message "
      "a reader gets is byte-identical to an outstanding message written to it on that session and direction, each at most once; "
      "(2) afterwards a fresh probe still arrives both ways; (3) when every genuine datagram was delivered at least once (faithful or "
      "non-destructive script) every accepted write is delivered completely (multiset of packets-worth of bytes, so packets of concurrent multi-packet Writes may interleave), Write returns (len, nil), WriteMsg refuses oversize "
      "with ErrBufOverflow, and a single writer's order is preserved on a faithful network; (4) no payload marker, server/client name, "
-     "static public key or certificate bytes occur in any datagram of the wire log, handshake included. Non-trivial = script with "
-     ">=1 action or a write larger than one packet; distinct by case hash.",
+     "static public key or certificate bytes occur in any datagram of the wire log, handshake included; (5) in interrupted cases the send log of the "
+     "network is the ground truth: the count a Write returns equals the payload bytes of the transport datagrams the socket accepted between "
+     "the start and the return of that call, error or not; a nil error implies the full length (Write) / exactly one datagram of that length "
+     "(WriteMsg); calls on an undisturbed end must still succeed; every byte a call REPORTED as sent (the packets of buf[:n]) reaches the reader "
+     "of an undisturbed peer (probes and full completeness are not demanded there: a refused datagram or a Close ends the session). "
+     "Non-trivial = script with >=1 action, a write larger than one packet, or a sending-side fault; distinct by case hash.",
      ["the reader keeps up (receive queue capacity 10000 packets is never reached)", "cryptographic primitives are not attacked by search"],
-     [dict(name="channel", pkg="transport", run="^TestVerifC03Channel$", shards=dict(quick=16, thorough=16), thorough_scale=250, timeout=dict(quick=900, thorough=7200))],
+     [dict(name="channel", pkg="transport", run="^TestVerifC03Channel$", shards=dict(quick=16, thorough=16), thorough_scale=200, timeout=dict(quick=900, thorough=7200))],
      text="Generated adversary scripts over the datagrams of established sessions, with keyed payloads so that any unauthentic, "
           "duplicated, cross-delivered or lost message is visible; completeness and exact write counts on faithful / "
           "non-destructive networks; substring search of the whole wire log for plaintext markers.",
